@@ -46,6 +46,17 @@ def builder_summaries(F):
                     alias[x["pat"]["local"]] = i0["local"]
 
         def src(e):
+            e0 = strip(e)
+            # a conditional value keeps the part only if every branch does (`if uniform { zeros(0) } else { weights }`
+            # drops the weights on one path)
+            if e0.get("k") == "If" and e0.get("else") is not None:
+                a, b = src(e0["then"]), src(e0["else"])
+                return a if (a is not None and a == b) else None
+            if e0.get("k") == "Match" and e0.get("src", "Normal") == "Normal" and e0.get("arms"):
+                vs = [src(a_["body"]) for a_ in e0["arms"]]
+                return vs[0] if all(v is not None and v == vs[0] for v in vs) else None
+            if e0.get("k") == "Block" and e0.get("e") is not None and e0["stmts"]:
+                return src(e0["e"])
             locs = [y for y in walk(e) if y.get("k") == "Path" and "local" in y]
             for y in locs:
                 l = y["local"]
